@@ -340,6 +340,75 @@ def step_size(item):
     return ok(nt)
 
 
+def _scramble(obj, depth=0):
+    """mutate a returned container in place, as a caller may: nested containers first, then the outer
+    one is emptied (lists also get a marker appended, so that an empty answer changes too)"""
+    import collections
+    if depth > 4:
+        return False
+    if isinstance(obj, (list, collections.deque)):
+        for x in list(obj):
+            _scramble(x, depth + 1)
+        obj.clear()
+        obj.append(-7)
+        return True
+    if isinstance(obj, (set, dict)):
+        for x in (list(obj.values()) if isinstance(obj, dict) else ()):
+            _scramble(x, depth + 1)
+        obj.clear()
+        return True
+    return False
+
+
+@check("C11.fresh_result")
+def fresh_result(perm):
+    """Every statistic computes the quantity its name says on EVERY call: what a caller does to a returned
+    list / deque / set / dict (clearing it, appending to it) must not change any later answer for the same
+    (or an equal) permutation object. Phase 0 records every answer on an untouched equal object, phase 1 calls
+    every method once and mutates what it returned, phase 2 asks again."""
+    import copy
+    t = _t(perm)
+    skip = {"holeyness"} if len(t) > 7 else set()
+    # phase 0: the answers of an untouched, equal permutation object (their agreement with the definitions is
+    # what C11.stat.<m> decides; here only "the same answer every time" is at stake)
+    fresh = type(perm)(t)
+    base = {}
+    for name, (real, _spec, _listing) in STATS.items():
+        if name not in skip:
+            base[name] = copy.deepcopy(real(fresh))
+    mutated = 0
+    for name in STATS:
+        meth = getattr(perm, name, None)
+        if meth is None or name in skip:
+            continue
+        try:
+            res = meth()
+        except ValueError:
+            continue
+        if _scramble(res):
+            mutated += 1
+    for name, (real, _spec, _listing) in STATS.items():
+        if name in skip:
+            continue
+        for who, obj in (("the same", perm), ("an equal", fresh)):
+            got = real(obj)
+            if repr(got) != repr(base[name]) if isinstance(got, _Wrong) else got != base[name]:
+                return bad(base[name], repr(got) if isinstance(got, _Wrong) else got,
+                           f"Perm.{name} on {who} permutation object after a caller mutated the containers returned "
+                           "by earlier calls, vs its answer before", True)
+    return ok(mutated > 0)
+
+
+@check("C11.stat.holeyness.long")
+def holeyness_long(perm):
+    t = _t(perm)
+    want = ST.holeyness(t)
+    got = perm.holeyness()
+    if not _is_int(got) or got != want:
+        return bad(want, got, "Perm.holeyness vs the maximum over all 2^n position sets")
+    return ok(want != 0)
+
+
 @check("C11.stat.count_inversions.long")
 def count_inversions_long(perm):
     t = _t(perm)
@@ -1000,6 +1069,32 @@ def run(ctx):
     ctx.run("C11.stat.step_size", steps, chunk=500,
             rule=f"all permutations <= {smax} x step_size in -2..n+1, positional and keyword; ValueError for < 1")
     ctx.add_sample("C11.stat.step_size", (Perm((3, 1, 0, 2)), 2))
+
+    # ---- holeyness beyond the exhaustive range (both sides are 2^n: sampled)
+    hol = []
+    for n, cnt in ((8, 300), (9, 1500), (10, 400), (11, 120), (12, 30)) if quick else (
+            (9, 6000), (10, 2000), (11, 600), (12, 200), (13, 40)):
+        hol.extend(D.random_perm(rng, n) for _ in range(cnt))
+    hol.extend(p for p in D.block_perms(rng, 60 if quick else 300, lo=8, hi=12))
+    ctx.run("C11.stat.holeyness.long", hol, chunk=25,
+            rule="seeded permutations of length 8-12 (thorough 9-13) incl. block-structured ones vs the maximum over "
+                 "all 2^n position sets; non-trivial = holeyness != 0")
+
+    # ---- block-structured long permutations (direct / skew sums of short blocks): many fixed points, strong
+    # fixed points, records, bonds and short cycles at positions >= 8; order of the listings matters
+    blocky = D.block_perms(rng, 240 if quick else 1500, lo=9, hi=24)
+    for name in STATS:
+        if name in ("holeyness", "fourpats"):
+            continue
+        ctx.run(f"C11.stat.{name}", blocky, chunk=60, rule=None)
+    ctx.rules.append(f"C11.stat.<m> additionally on {len(blocky)} seeded block-structured permutations of length 9-24 "
+                     "(direct/skew sums of blocks of length <= 6; not holeyness, fourpats)")
+
+    # ---- answers do not depend on what callers did to earlier results
+    fr = D.perms_upto(5 if quick else 6) + D.block_perms(rng, 40 if quick else 200, lo=7, hi=14)
+    ctx.run("C11.fresh_result", fr, chunk=40,
+            rule="all permutations <= 5 (thorough 6) + seeded block-structured ones of length 7-14: call every method, "
+                 "mutate every returned list/deque/set/dict, then every method must answer as before")
 
     # ---- Fenwick-tree inversion count beyond small n
     longp = _structured_long_perms()
